@@ -199,6 +199,10 @@ pub fn run(rep: &Reporter) -> Coverage {
             );
         }
     });
+    // milestones: texts around and beyond the milestone interval (default 100) and short texts under small intervals,
+    // with 0..2 annotations: the stored position index has entries that no text selection owns
+    let nmile = milestone_family(rep, &workdir, &oracle.roundtrips);
+    cov.extra.insert("milestone_stores".into(), json!(nmile));
     let _ = std::fs::remove_dir_all(&workdir);
     cov.samples.push(json!({"sweep": "store with one data value Float(NaN) / Datetime(…45.250+01:00) / nested List saved and loaded as CBOR"}));
     cov.exhaustive = exhaustive;
@@ -206,12 +210,74 @@ pub fn run(rep: &Reporter) -> Coverage {
     cov.traces_validated = cov.transitions;
     cov.extra.insert("explorations".into(), json!(runs));
     cov.extra.insert("value_sweep_stores".into(), json!(values.len()));
-    cov.rule = "every distinct state of the history exploration (as C01; incl. gaps after removals) is saved with to_file(*.cbor) and loaded with from_file, shrink_to_fit off and on; the complete internal dump (hook H1: all item vectors, id maps, every reverse index entry, position indices) must be equal line by line, and the public observation (abstract content, reverse-lookup self-consistency, index_totalcount, a battery of 6 queries) must be equal; value sweep: one store per value of the menu incl. NaN and infinities; non-trivial = states with a removed and a live annotation".into();
+    cov.rule = "every distinct state of the history exploration (as C01; incl. gaps after removals) is saved with to_file(*.cbor) and loaded with from_file, shrink_to_fit off and on; the complete internal dump (hook H1: all item vectors, id maps, every reverse index entry, position indices) must be equal line by line, and the public observation (abstract content, reverse-lookup self-consistency, index_totalcount, a battery of 6 queries) must be equal; value sweep: one store per value of the menu incl. NaN and infinities; milestone family: texts of 99 / 100 / 101 / 200 / 250 codepoints under the default interval and 8-codepoint texts under intervals 1, 2, 3, 7, each with 0..2 annotations; non-trivial = states with a removed and a live annotation".into();
     cov.assumptions = vec!["NaN float values are compared through their Debug rendering".into()];
     cov
 }
 
+fn milestone_cases() -> Vec<(String, String, usize, usize)> {
+    // (label, text, milestone interval (0 = default), number of annotations)
+    let unit = "a\u{e9}b\u{1d11e} ";
+    let mut v = Vec::new();
+    for len in [99usize, 100, 101, 200, 250] {
+        let text: String = unit.chars().cycle().take(len).collect();
+        for nann in 0..=2 {
+            v.push((format!("len{}|default-interval|anns={}", len, nann), text.clone(), 0, nann));
+        }
+    }
+    for interval in [1usize, 2, 3, 7] {
+        let text: String = unit.chars().cycle().take(8).collect();
+        for nann in 0..=2 {
+            v.push((format!("len8|interval{}|anns={}", interval, nann), text.clone(), interval, nann));
+        }
+    }
+    v
+}
+
+fn milestone_family(rep: &Reporter, workdir: &str, counter: &AtomicU64) -> usize {
+    let cases = milestone_cases();
+    cases.par_iter().enumerate().for_each(|(i, (label, text, interval, nann))| {
+        for shrink in [false, true] {
+            let cfg = if *interval == 0 { Config::default() } else { Config::default().with_milestone_interval(*interval) };
+            let built = catch(|| -> Result<AnnotationStore, StamError> {
+                let mut s = AnnotationStore::new(cfg);
+                s.add_resource(TextResourceBuilder::new().with_id("r").with_text(text.clone()))?;
+                let len = text.chars().count();
+                for k in 0..*nann {
+                    let (b, e) = if k == 0 { (1, 4) } else { (len - 3, len) };
+                    s.annotate(AnnotationBuilder::new().with_id(format!("a{}", k)).with_target(SelectorBuilder::textselector("r", Offset::simple(b, e))).with_data("s", "k", "v"))?;
+                }
+                Ok(s)
+            });
+            let mut store = match built {
+                Ok(Ok(s)) => s,
+                _ => continue,
+            };
+            counter.fetch_add(1, Ordering::Relaxed);
+            let file = format!("{}/mile{}-{}.store.stam.cbor", workdir, i, shrink as u8);
+            if let Some(f) = cbor_roundtrip(&mut store, &file, shrink) {
+                rep.fail(
+                    &format!("milestones|{}|shrink={}|{}", label, shrink, f.symptom),
+                    (1 << 61) + i as u64,
+                    || format!("text of {} codepoints, milestone interval {}, {} annotations, shrink_to_fit={}: {}", text.chars().count(), interval, nann, shrink, f.detail),
+                    || json!({"milestones": {"index": i, "label": label}}),
+                );
+            }
+        }
+    });
+    cases.len() * 2
+}
+
 pub fn replay(rep: &Reporter, case: &Value) {
+    if case.get("milestones").is_some() {
+        println!("replay C11 milestone family: {}", case["milestones"]);
+        let c = AtomicU64::new(0);
+        let dir = crate::util::work_dir("w");
+        std::fs::create_dir_all(&dir).expect("workdir");
+        milestone_family(rep, &dir, &c);
+        let _ = std::fs::remove_dir_all(&dir);
+        return;
+    }
     let hist = history_from_json(&case["history"]);
     println!("replay C11: history:");
     for o in &hist {
